@@ -22,12 +22,16 @@ def gen_config(r, kinds=("wb", "wt")):
     kind = r.choice(kinds)
     strat = r.choice(["lru", "plru"])
     big = r.random() < 0.06
+    huge = r.random() < 0.02  # index so wide that the lowest data addresses have tag 0
     ib = r.randint(0, 3) if not big else r.randint(3, 6)
     bb = r.randint(0, 3) if not big else r.randint(2, 4)
     if strat == "plru":
         ways = r.choice([1, 2, 4, 8]) if not big else r.choice([1, 2, 16])
     else:
         ways = r.choice([1, 1, 2, 2, 3, 4, 5, 6, 7, 8])
+    if huge:
+        ib, bb = r.choice([(13, 0), (12, 1), (12, 0), (11, 2)])
+        ways = r.choice([1, 2])
     pen = r.choice([0, 0, 1, 2, 3, 5, 7, r.randint(0, 50)])
     return {"kind": kind, "ib": ib, "bb": bb, "ways": ways, "strat": strat, "pen": pen}
 
